@@ -80,16 +80,22 @@ def run_variant(spec_path, kind):
     d = make_scratch()
     res = dict(file=os.path.relpath(spec_path, HERE), kind=kind, ok=False)
     try:
-        apply_edits(d, spec.get("edits", []))
-        if spec.get("patch"):
-            pp = spec["patch"] if os.path.isabs(spec["patch"]) else os.path.join(HERE, spec["patch"])
-            subprocess.check_call(["git", "-C", d, "apply", pp])
+        try:
+            apply_edits(d, spec.get("edits", []))
+            if spec.get("patch"):
+                pp = spec["patch"] if os.path.isabs(spec["patch"]) else os.path.join(HERE, spec["patch"])
+                subprocess.check_call(["git", "-C", d, "apply", pp], stderr=subprocess.DEVNULL)
+        except Exception as e:  # noqa
+            res["error"] = str(e)
+            res["skipped"] = "edit does not apply to this tree"
+            return res
         out = {}
         for p in spec["props"]:
             rc, rules, so, se = run_check(p, d)
             out[p] = (rc, rules)
             if rc == 2:
                 res["error"] = "does not compile: " + se[-1500:]
+                res["skipped"] = "variant does not compile on this tree"
                 return res
         if kind == "mutant":
             got = [r for p in out for r in out[p][1] if not r.startswith("KNOWN:")]
@@ -176,6 +182,14 @@ def main():
     print("selftest: %d/%d ok" % (npass, len(results)))
     if a.json:
         json.dump(results, open(a.json, "w"), indent=1)
+    if a.mode == "one" and results and results[0].get("skipped"):
+        sys.exit(3)
+    if a.mode == "all" and npass == len(results) and not only and not a.name:
+        # the corpus was validated on exactly this tree: thorough runs on it are strict
+        sys.path.insert(0, HERE)
+        from engine.facts import source_hash
+
+        json.dump({"source_hash": source_hash(REPO), "cases": len(results)}, open(os.path.join(HERE, "selftest", "validated_on.json"), "w"))
     sys.exit(0 if npass == len(results) else 1)
 
 
